@@ -168,6 +168,7 @@ def insertion_cases():
            lambda t, c: t['entries'].append(('loop', ['_n1', '_n3'], [[u('1'), u('3')], [u('4'), u('6')]])))
         # a table key holding a character the data model disallows: the character is reported, then the key; the entry is dropped
         mk('disallowed-char-in-table-key', ["_dk {'a\x01b':1 'c':2}"], CIF_DISALLOWED_CHAR, lambda t, c: set_item(t, '_dk', ('table', (('c', u('2')),))))
+        mk('disallowed-char-in-text-block-key', ['_dt {', ';k\x01', ";:1 'c':2}"], CIF_DISALLOWED_CHAR, lambda t, c: set_item(t, '_dt', ('table', (('c', u('2')),))))
         mk('partial-packet-1', ['loop_', '_n1', '_n2', '_n3', '1 2 3', '4 5'], CIF_PARTIAL_PACKET,
            lambda t, c: t['entries'].append(('loop', ['_n1', '_n2', '_n3'], [[u('1'), u('2'), u('3')], [u('4'), u('5'), UNK]])))
         mk('partial-packet-2', ['loop_', '_n1', '_n2', '_n3', '1'], CIF_PARTIAL_PACKET,
